@@ -64,6 +64,9 @@ impl Scratch {
             }
         }
         walk(&self.dir, &mut out);
+        // the simulator's own stand-in tools are not leftovers
+        let tools = self.dir.join("bin").display().to_string();
+        out.retain(|p| !p.starts_with(&tools));
         out.sort();
         out
     }
